@@ -288,3 +288,6 @@ func Key(t *rapid.T, validUTF8 bool, label string) []byte {
 		return k
 	}
 }
+
+// TierThorough reports whether the thorough tier is running.
+func TierThorough() bool { return os.Getenv("VERIF_TIER") == "thorough" }
